@@ -32,7 +32,7 @@ pub struct Fold {
     pub output: Option<PathBuf>,
 
     /// Precision to use when printing SFS.
-    #[clap(short = 'p', long, default_value_t = 6, value_name = "INT")]
+    #[clap(short = 'p', long, default_value_t = 6, value_name = "INT", value_parser = crate::parse_precision)]
     pub precision: usize,
 }
 
